@@ -51,9 +51,9 @@ func violatingTable() []violating {
 	return out
 }
 
-var msgASCII = []rune("abcXYZ 019_-.:!?()=~/|+")
-var msgCJK = []rune("必填项请输入正确的值手机号长度一")
-var msgOtherScripts = []rune("テストéß한글😀") // no character in U+4E00..U+9FA5: English label
+var msgASCII = []rune("abcXYZ 019_-.:!?()=~/|+%")
+var msgCJK = []rune("必填项请输入正确的值手机号长度一\u4e00\u9fa5谬丯") // incl. both ends of U+4E00..U+9FA5
+var msgOtherScripts = []rune("テストéß한글😀\u4dff\u9fa6\u4000\u9fff\u3400") // no character in U+4E00..U+9FA5 (the neighbours just outside included): English label
 
 func genMsg(t *rapid.T) (msg, class string) {
 	class = rapid.SampledFrom([]string{"ascii", "ascii", "cjk", "cjk", "mixed", "other-script", "one-byte", "one-rune-cjk", "quoted-comma", "with-equals"}).Draw(t, "msgClass")
